@@ -141,7 +141,7 @@ PROPS["C10"] = {
     "required_theorems": ["C10_match_perm_invariant", "C10_scan_sort_key_is_modelled", "C10_matcher_sorts_names", "C10_alerts_order_schedule_invariant", "C10_alerts_sorted",
                           "C10_sort_perm_invariant", "C10_slots_schedule_invariant", "C10_slot_content", "C10_old_key_not_total"],
     "level_text": "Kernel-checked, each for EVERY arrival order: the diff matcher's outcome (pairs, similarities, added, removed) is invariant under every permutation of the old and of the new function list (the Go maps' iteration order) for lists with distinct short names; scan's alert order (model of the less-function of RunScanLogic: a strict total order on the alert key, proved irreflexive/trichotomous/transitive) gives the same sorted list for any two permutations of the alerts, whereas the pre-fix key provably does not; check's index-addressed result slots end in the same array whatever order the workers finish in. Tie: the model is compared with the real ComputeDiff on generated pairs with tied candidates; and the real binary (built from the working tree) is run repeatedly at GOMAXPROCS 1, 2 and 16 on generated trees shaped to tie (identical shapes, identical short names across packages, a database indexed from the tree itself) for check, scan (Pebble, Pebble --exact, JSON) and diff; every stdout must be byte-identical.",
-    "level_note": "PARTIAL: scheduling of the per-file goroutines and Go map iteration order are sampled by repetition (3 x 3 runs quick, 30 x 3 thorough), not enumerated; the theorem covers the matcher, the alert-sort and slot theorems cover scan/check ordering. Trusted: Lean kernel, go/packages load order.",
+    "level_note": "PARTIAL: scheduling of the per-file goroutines and Go map iteration order are sampled by repetition (3 x 3 runs quick, 12 x 3 on three trees thorough), not enumerated; the theorem covers the matcher, the alert-sort and slot theorems cover scan/check ordering. Trusted: Lean kernel, go/packages load order.",
     "partial": "goroutine schedules and map orders are sampled by repeated runs",
     "trusted_base": ["Go runtime scheduler and map iteration (sampled)", "sort.SliceStable is a stable sort (modelled as mergeSort)"],
 }
